@@ -148,6 +148,8 @@ def check(case: Dict[str, Any]) -> CaseInfo:
         classes.append("stamps_beyond_2**53")
     if len(case["ranks"]) > 8:
         classes.append("more_than_8_ranks")
+    if case.get("big_vocab"):
+        classes.append("job_vocabulary_above_127_one_file_below")
     if case.get("mp") or mode in ("analysis", "dir"):
         classes.append("multiprocessing")
     if any(r.ts != ts for exp in expected.values() for r, ts, _, _ in exp.values()):
@@ -183,7 +185,7 @@ def campaigns(tier: str) -> List[Campaign]:
         Campaign("raw_files", raw_case(), check, quick=640, thorough=32000, quick_shards=8,
                  required_classes={"fractional": 0.1, "multi_rank": 0.4, "kind:M:": 0.25, "kind:X:Trace": 0.1, "kind:X:incomplete": 0.1,
                                    "mode:parse": 0.1, "mode:load": 0.15, "mode:analysis": 0.12, "rounding_changes_a_stamp": 0.07,
-                                   "multiprocessing": 0.2, "more_than_8_ranks": 0.025, "stamps_beyond_2**53": 0.04, "whole_ts_fractional_dur": 0.1},
+                                   "multiprocessing": 0.2, "more_than_8_ranks": 0.025, "stamps_beyond_2**53": 0.04, "whole_ts_fractional_dur": 0.1, "job_vocabulary_above_127_one_file_below": 0.05},
                  sample_view=view),
         Campaign("sim_files", sim_load_case(), check, quick=160, thorough=8000, quick_shards=8, sample_view=view),
     ]
